@@ -80,6 +80,9 @@ type behaviour struct {
 	W        int     `json:"w"`
 	Keys     [][]int `json:"keys"`
 	Prefixes [][]int `json:"prefixes"`
+	Init     []int   `json:"init"` // contents the trie starts with (directed generators)
+	VLen     []int   `json:"vlen"` // byte length of value v (the spec's VLen)
+	InitFl   bool    `json:"initfl"` // slot 1 starts as a flushed snapshot of the initial contents
 	Steps    []step  `json:"steps"`
 	FixNib   string  `json:"fix_nibbles,omitempty"` // replay files pin the concretization
 	FixSalt  *int    `json:"fix_salt,omitempty"`
@@ -118,6 +121,9 @@ func newConc(b *behaviour, rnd *rand.Rand) *conc {
 		kb := c.bytesOf(k)
 		c.keys = append(c.keys, kb)
 		c.keyIdx[string(kb)] = i + 1
+	}
+	for i, l := range b.VLen {
+		c.vlen[i+1] = l
 	}
 	for _, s := range b.Steps {
 		if s.Op == "set" {
@@ -543,50 +549,73 @@ func tamperProof(p [][]byte, t tamper, other [][]byte, rnd *rand.Rand) [][]byte 
 }
 
 // observe compares everything a reader can see of an immutable trie with the spec's prediction.
-func (r *runner) observe(at string, im trie.Immutable, m []int, o *obs, slot int, rnd *rand.Rand) {
+func (r *runner) observe(at string, im trie.Immutable, m []int, o *obs, slot int, ord int, rnd *rand.Rand) {
 	h := im.Hash()
 	r.checkHash(at, m, h)
-	if r.c17() {
-		r.checkGets(at, "immutable", im.Get, m, "mpt:get:immutable")
-		got, err := r.iterate(im.Iterator())
-		if err != nil {
-			r.viol("mpt:iter:error", "%s: iteration failed: %v", at, err)
-		} else if !pairsEq(got, o.It) {
-			r.viol("mpt:iter", "%s: iteration returned %v, spec says %v (contents %v)", at, got, o.It, m)
-		}
-		for j, p := range r.b.Prefixes {
-			got, err := r.iterate(im.Filter(r.c.bytesOf(p)))
-			if err != nil {
-				r.viol("mpt:filter:error", "%s: Filter(%v) failed: %v", at, p, err)
-			} else if !pairsEq(got, o.Flt[j]) {
-				r.viol("mpt:filter", "%s: Filter(prefix %v) returned %v, spec says %v (contents %v)", at, p, got, o.Flt[j], m)
-			}
-		}
-	}
-	// proofs of every key of the universe
 	proofs := make([][][]byte, len(r.c.keys))
 	nodes := map[string][]byte{}
 	var rootSer []byte
-	for i, kb := range r.c.keys {
-		p := im.GetProof(kb)
-		proofs[i] = p
-		pr := o.Pf[i]
-		if r.c18() {
-			if (p != nil) != pr.OK || len(p) != pr.N {
-				// the proof of a stored key must exist (completeness); the rest is diagnostic
-				if m[i] != 0 && p == nil {
-					r.pviol("proof:missing", "%s: GetProof(key %d) returned nil for a stored key", at, i+1)
-				} else {
-					r.diverge("%s: GetProof(key %d) has %d elements (nil=%v), spec says %d (ok=%v)", at, i+1, len(p), p == nil, pr.N, pr.OK)
+	// the four kinds of reads; `ord` (chosen by TLC) says which one meets the trie first: on a reloaded or cache-cleared
+	// trie the first read is the one that has to realize the nodes from the database
+	reads := []func(){
+		func() {
+			if r.c17() {
+				r.checkGets(at, "immutable", im.Get, m, "mpt:get:immutable")
+			}
+		},
+		func() {
+			if !r.c17() {
+				return
+			}
+			got, err := r.iterate(im.Iterator())
+			if err != nil {
+				r.viol("mpt:iter:error", "%s: iteration failed: %v", at, err)
+			} else if !pairsEq(got, o.It) {
+				r.viol("mpt:iter", "%s: iteration returned %v, spec says %v (contents %v)", at, got, o.It, m)
+			}
+		},
+		func() {
+			if !r.c17() {
+				return
+			}
+			for j, p := range r.b.Prefixes {
+				got, err := r.iterate(im.Filter(r.c.bytesOf(p)))
+				if err != nil {
+					r.viol("mpt:filter:error", "%s: Filter(%v) failed: %v", at, p, err)
+				} else if !pairsEq(got, o.Flt[j]) {
+					r.viol("mpt:filter", "%s: Filter(prefix %v) returned %v, spec says %v (contents %v)", at, p, got, o.Flt[j], m)
 				}
 			}
-		}
-		for j, e := range p {
-			if j == 0 {
-				rootSer = e
+		},
+		func() { // proofs of every key of the universe
+			for i, kb := range r.c.keys {
+				p := im.GetProof(kb)
+				proofs[i] = p
+				pr := o.Pf[i]
+				if r.c18() {
+					if (p != nil) != pr.OK || len(p) != pr.N {
+						// the proof of a stored key must exist (completeness); the rest is diagnostic
+						if m[i] != 0 && p == nil {
+							r.pviol("proof:missing", "%s: GetProof(key %d) returned nil for a stored key", at, i+1)
+						} else {
+							r.diverge("%s: GetProof(key %d) has %d elements (nil=%v), spec says %d (ok=%v)", at, i+1, len(p), p == nil, pr.N, pr.OK)
+						}
+					}
+				}
+				for j, e := range p {
+					if j == 0 {
+						rootSer = e
+					}
+					nodes[string(sha3(e))] = e
+				}
 			}
-			nodes[string(sha3(e))] = e
-		}
+		},
+	}
+	if ord < 1 || ord > len(reads) {
+		ord = 1
+	}
+	for i := range reads {
+		reads[(ord-1+i)%len(reads)]()
 	}
 	if rootSer != nil && o.Shape != nil {
 		sh, err := r.c.shapeOf(rootSer, nodes, r.b.W, true, true)
@@ -598,7 +627,7 @@ func (r *runner) observe(at string, im trie.Immutable, m []int, o *obs, slot int
 	} else if (rootSer == nil) != (o.Shape == nil || o.Shape.T == "N") {
 		r.diverge("%s: root presence differs from the spec's shape %s", at, js(o.Shape))
 	}
-	if !r.c18() || h == nil {
+	if !r.c18() {
 		return
 	}
 	// Prove: on the trie itself (resolved nodes) and on a verifier that knows only the root hash
@@ -700,6 +729,20 @@ func (r *runner) run(rnd *rand.Rand) (at int) {
 	for i := range r.snaps {
 		r.snaps[i] = r.mut.GetSnapshot()
 	}
+	for i, v := range r.b.Init { // initial contents, written in key order
+		if v != 0 {
+			if _, err := r.mut.Set(r.c.keys[i], r.c.value(v)); err != nil {
+				r.viol("mpt:set:error", "initial contents: %v", err)
+			}
+		}
+	}
+	if r.b.InitFl && len(r.snaps) > 0 {
+		r.snaps[0] = r.mut.GetSnapshot()
+		r.shash[0] = r.snaps[0].Hash()
+		if err := r.snaps[0].Flush(); err != nil {
+			r.viol("mpt:flush:error", "initial flush: %v", err)
+		}
+	}
 	for i, s := range r.b.Steps {
 		at := fmt.Sprintf("step %d (%s)", i+1, s.Op)
 		switch s.Op {
@@ -719,9 +762,9 @@ func (r *runner) run(rnd *rand.Rand) (at int) {
 			sn := r.mut.GetSnapshot()
 			r.snaps[s.S-1] = sn
 			r.shash[s.S-1] = sn.Hash()
-			r.observe(at, sn, s.SM[s.S-1], &s.Obs, s.S, rnd)
+			r.observe(at, sn, s.SM[s.S-1], &s.Obs, s.S, s.K, rnd)
 		case "check":
-			r.observe(at, r.snaps[s.S-1], s.SM[s.S-1], &s.Obs, s.S, rnd)
+			r.observe(at, r.snaps[s.S-1], s.SM[s.S-1], &s.Obs, s.S, s.K, rnd)
 		case "reset":
 			if err := r.mut.Reset(r.snaps[s.S-1]); err != nil {
 				r.viol("mpt:reset:error", "%s: %v", at, err)
@@ -733,7 +776,8 @@ func (r *runner) run(rnd *rand.Rand) (at int) {
 		case "reload":
 			h := r.snaps[s.S-1].Hash()
 			r.mut = trie_manager.NewMutable(r.dbase, h)
-			r.observe(at, trie_manager.NewImmutable(r.dbase, h), s.SM[s.S-1], &s.Obs, s.S, rnd)
+			r.observe(at, trie_manager.NewImmutable(r.dbase, h), s.SM[s.S-1], &s.Obs, s.S, s.K, rnd)
+		case "look":
 		case "clear":
 			if s.S == 0 {
 				r.mut.ClearCache()
@@ -743,9 +787,16 @@ func (r *runner) run(rnd *rand.Rand) (at int) {
 		default:
 			panic("unknown op " + s.Op)
 		}
-		// after every call: the mutable trie and every snapshot hold exactly what the spec says
-		r.checkGets(at, "mutable", r.mut.Get, s.M, "mpt:get")
+		// at every Look step (an action of the spec; reading realizes nodes, so it is not done behind the spec's back
+		// after every call) and at the end: the mutable trie and every snapshot hold exactly what the spec says
+		lookNow := s.Op == "look" || i == len(r.b.Steps)-1
+		if lookNow {
+			r.checkGets(at, "mutable", r.mut.Get, s.M, "mpt:get")
+		}
 		for j, sn := range r.snaps {
+			if !lookNow {
+				break
+			}
 			r.checkGets(at, fmt.Sprintf("snapshot %d", j+1), sn.Get, s.SM[j], "mpt:snapshot:changed")
 			if r.c17() {
 				h := sn.Hash()
